@@ -5,7 +5,7 @@ META = dict(
     engine="flo", level="model_checking",
     technique="explicit-state BFS over write histories (front write x back write per tick, same/new value) of enumerated marker programs on the real Builder/Skedder vs the reference mark model",
     text="Programs A<->B(/C) whose transitions are guarded by `x is updated|changed` with every combination of no clause / `in frame me` / "
-         "`in frame <name>` / `by mk` (shared marks), two transitions sharing a mark in one frame, a framer write on entry, and negation. Per tick "
+         "`in frame <name>` / `by mk` (shared marks), two transitions sharing a mark in one frame, a framer write on entry, negation, and marker-guarded transitions into a frame with an entry guard (a refused attempt must leave the mark untouched). Per tick "
          "the harness writes x before the framer (none / value 1 / value 2) and after it (same choices): 9 inputs; BFS to fixpoint over canonical "
          "states that include the share's stamp age and every mark's (stamp age, used age, snapshot). Every tick's transitions, share value/stamp and "
          "mark contents must equal the reference model of the statement (entry reset counts same-tick updates, taken-transition reset does not, "
@@ -20,6 +20,8 @@ def family():
     from mc.flo import families as F
     for label, prog, meta in F.fam_markers():
         yield label, prog, dict(deep=False)
+    for label, prog, meta in F.fam_markers_guarded():
+        yield label, prog, dict(deep=True)
     if core.TIER != "quick":
         for label, prog, meta in F.fam_markers_deep():
             yield label, prog, dict(deep=True)
